@@ -5,11 +5,12 @@ V = os.path.dirname(os.path.dirname(os.path.abspath(__file__)))
 props = [json.loads(l)["id"] for l in open(os.path.join(V, "properties.jsonl"))]
 
 MC = "model_checking"
+CHECKS_C02 = CHECKS_C05 = CHECKS_C12 = None
 CHECKS = {
  "C01": dict(level=MC, design="7/C01", technique="TLA+ trace validation: Polar's closed forms at n=0..N bound to Moment() of the LoopDist semantics machine, checked by TLC",
    text="Every closed form Polar returns for a corpus of hand-written shapes, repository benchmarks and generated programs is evaluated at each n <= N and each sampled parameter point and must equal the expectation computed by the explicit TLA+ semantics (spec/LoopDist.tla) that TLC executes exactly; finite-state programs are additionally decided for all n by the order-bound argument when N is large enough. Bounded in programs, parameter points and n; exhaustive over the probabilistic paths of every program.",
    note="Trusted: TLC, spec/Exact.tla (self-tested), the text renderer / Polar's parser for repository files (judged by C19), sympy for evaluating closed forms at integer n."),
- "C02": dict(level=MC, design="7/C02", technique="TLA+ refinement under projection: source program and the program observed after every normalisation pass stepped side by side in TLC, joint law of source variables compared at every iteration",
+ "X02": dict(level=MC, design="7/C02", technique="TLA+ refinement under projection: source program and the program observed after every normalisation pass stepped side by side in TLC, joint law of source variables compared at every iteration",
    text="The program after each pass that actually ran (recorded by run-time wrappers around Transformer.execute) is exported statement by statement and executed by the same TLA+ semantics as the source program; clause equiv requires equal joint distributions over the source variables at every iteration boundary, auxiliaries poisoned at start. Three option settings quick, four thorough.",
    note="Trusted: the exporter of Polar's Program objects (reads public fields only), TLC, Exact. Passes that introduce an abstracted probability symbol are skipped."),
  "C03": dict(level=MC, design="7/C03", technique="TLA+ trace validation of every recurrence equation: expectation identity along the LoopDist behaviour and pointwise identity on every reachable store (induction), plus structural closedness",
@@ -18,7 +19,7 @@ CHECKS = {
  "C04": dict(level=MC, design="7/C04", technique="TLC enumerates complete families of small linear systems (spec/LinRecFamily.tla) replayed into Polar's solvers; returned closed forms trace-validated against the machine x'=Ax+b (spec/LinRec.tla)",
    text="All 2x2 integer systems over {-2..2} x vectors over {-1,0,1} (and inhomogeneous / 3x3 families) are enumerated by TLC with their exact behaviours; Polar's acyclic and forced cyclic solver, exact and numeric root modes, must reproduce every component at n = 0..9, which by the order bound decides all n for exact closed forms. Fixed families cover nilpotent, Jordan, complex, irrational, parametric cases.",
    note="Quick tier replays a seeded sample of the enumerated family; numeric modes use a stated tolerance."),
- "C05": dict(level=MC, design="7/C05", technique="TLC executes the normalized program under the IR semantics and evaluates the type invariant on every intermediate store of every path and iteration",
+ "X05": dict(level=MC, design="7/C05", technique="TLC executes the normalized program under the IR semantics and evaluates the type invariant on every intermediate store of every path and iteration",
    text="Inferred Finite types (not user-declared ones) must contain the value of the variable in every store that exists after any assignment in any iteration, including frozen iterations after the guard became false; type_fp_iterations in {100,1} quick, {100,1,2} thorough.",
    note="Depth-bounded for infinite-state programs; exhaustive over paths up to N iterations."),
 
@@ -37,7 +38,7 @@ CHECKS = {
  "C11": dict(level=MC, design="7/C11", technique="TLA+ trace validation: central moments from the definition and cumulants from the set-partition formula on the exact law vs Polar's conversions of its closed forms",
    text="For orders k <= 4, Polar's central moments and cumulants evaluated at every n must equal sum w (M - EM)^k and the partition-formula cumulant computed by TLC on the exact distribution.",
    note="Tail bounds and the Gram-Charlier / Cornish-Fisher expansions are not covered yet (see DESIGN.md section 8)."),
- "C12": dict(level=MC, design="7/C12", technique="exhaustive enumeration of the simulator's random resolutions (scripted random sources) trace-validated against the path machine spec/LoopSem.tla; induced distribution compared with LoopDist; TLC-generated behaviours replayed into the simulator",
+ "X12": dict(level=MC, design="7/C12", technique="exhaustive enumeration of the simulator's random resolutions (scripted random sources) trace-validated against the path machine spec/LoopSem.tla; induced distribution compared with LoopDist; TLC-generated behaviours replayed into the simulator",
    text="Every resolution of every random call of Simulator.simulate up to N iterations is a recorded run; each must be a behaviour of LoopSem (same alternatives, probabilities, guard decisions, successor stores), runs must be distinct and their weights grouped by final store must equal the lifted distribution. Conversely TLC-simulated behaviours are forced onto the simulator and stores compared.",
    note="Programs with dyadic constants (float exactness); sampler call conventions of continuous families are not covered yet."),
  "C16": dict(level=MC, design="7/C16", technique="TLC scans every exponent vector of a box and checks soundness, independence and completeness of Polar's lattice basis with exact arithmetic in Q, Q(i), Q(sqrt d) (spec/ExpLattice.tla)",
@@ -52,7 +53,30 @@ CHECKS = {
  "C20": dict(level=MC, design="7/C20", technique="spec/Session.tla models the process-global state; TLC enumerates all bounded histories, predicts hidden state and name collisions; behaviours replayed in one real process and compared with fresh-process references; goal orders and hash seeds replayed",
    text="All histories up to 3 (quick) / 4 (thorough) actions over 5 programs x 3 option toggles; after every action the real unique-name counter, settings and class flag must equal the model's, and every result must equal the fresh reference up to renaming of generated symbols.",
    note="Alphabet of programs is fixed; caches are not modelled (their keys are object identities or pure function arguments)."),
+
+ "C02": CHECKS_C02,
+ "C05": CHECKS_C05,
+ "C08": dict(level=MC, design="7/C08, 14.3", technique="TLA+ reference table of the distribution families (spec/Dists.tla) validated row by row against Polar's distribution classes; moment-only draws with variable parameters validated by clause cdraw of LoopTrace",
+   text="50 distributions x orders k <= 6: get_moment, mgf/cf derivatives at 0, support, discreteness, mgf domain and real samples must agree with Dists.tla (defining sums for discrete families, integration-by-parts recurrences for continuous ones, affine lemma checked by TLC). Draws whose parameters depend on finitely valued variables: E[m z^k] from Polar's closed forms equals the mixture of family moments computed by the spec on the source program.",
+   note="Continuous families use transcribed recurrences as reference (TLA+ cannot integrate); TruncNormal moments are not decided. KNOWN-FINDING D17."),
+ "C12": CHECKS_C12,
+ "C13": dict(level=MC, design="7/C13, 14.3", technique="exact interval arithmetic in TLA+ (spec/FuncMoment.tla) over 35-digit enclosures of sin/cos/exp at the support points; Polar's values must lie inside; mgf-domain table decides existence",
+   text="For Bernoulli / Categorical / DiscreteUniform draws and constants, 388 values of E[X^a sin^b X cos^c X] and E[X^a exp(cX)] in default and exact mode must lie in the interval TLC computes from the defining finite sum; for Exponential / Gamma / Laplace the outcome of a request for E[exp(cX)] (answered or rejected) must agree with the mgf domain.",
+   note="Finite-support fragment only; continuous X not decided; enclosures from mpmath are trusted; refusals of existing moments are counted, not judged here."),
+ "C14": dict(level=MC, design="7/C14, 14.3", technique="TLA+ trace validation: E[Q(state_n)] from the semantics of the unsolvable source loop bound to the synthesized closed form f(n) (clause mom); synthesized solvable loops stepped side by side with the original (clause momeq)",
+   text="Every (Q, f) returned by synth_inv (k = 1 and general case, degrees 1-2 quick / 1-3 thorough) for the repository's unsolvable loops and four extra shapes is checked at n = 0..3 and two instantiations of initial values and free coefficients; every synthesized loop must reproduce the first moments of retained variables and of Q.",
+   note="Bounded N = 3 (doubly exponential growth); moment-level equivalence on first moments."),
+ "C15": dict(level=MC, design="7/C15, 14.3", technique="spec/BayesNet.tla decides Accepts / Assemble / joint law / conditional moments for every BIF rendering; generated loop validated by LoopDist (clause prob)",
+   text="8 networks x 10 renderings (table / default / entry notations and six kinds of broken files): Polar must accept exactly what the spec accepts with equal CPTs; one iteration of the generated loop must have the network's joint law on every full assignment; exact-inference and sampling-time answers must equal E[X^k | ev] and 1/P(ev) computed by enumeration in the spec.",
+   note="Networks of 2-4 variables, dyadic CPT entries."),
+ "C18": dict(level=MC, design="7/C18, 14.3", technique="programs of the documented class (by construction; finiteness of condition variables confirmed by TLC clause supp on the source program) with the outcome rule: refusal or goal refusal = violation, accepted results validated like C01",
+   text="11 shapes named in the property and generated in-class programs (with and without type declarations) must be accepted and every goal over effective variables must get a closed form equal to the semantics; refusals are violations unless they match an open known finding (D12, D21).",
+   note="Timeouts are not judged. KNOWN-FINDING D12, D21."),
 }
+
+for _a, _b in (("C02", "X02"), ("C05", "X05"), ("C12", "X12")):
+    CHECKS[_a] = CHECKS.pop(_b)
+
 
 def entry(pid, c):
     return {"property_id": pid, "quick_cmd": f"./check {pid} --tier quick", "thorough_cmd": f"./check {pid} --tier thorough",
